@@ -45,7 +45,8 @@ def generate(chk, label, consts, timeout=900, workers=12, simulate=None, depth=N
     if r.violation:
         raise vlib.ToolError(f"LangGen[{label}] reported {r.violation}: " + vlib.tlc_error_trace(r.stdout)[:1500])
     chk.tlc(r, f"LangGen[{label}]")
-    return r.tagged["REPLAY"]
+    # TLC's workers print in a nondeterministic order: fix the order of the behaviours
+    return sorted(r.tagged["REPLAY"], key=lambda rep: json.dumps(rep, sort_keys=True))
 
 
 def to_request(i, rep, n=None, rec=None, backends=("vm", "wasm"), sched=True, swaps=None):
